@@ -170,6 +170,57 @@ pub struct Job {
     /// state, real process restarts); otherwise the history runs inside the worker
     #[serde(default)]
     pub isolate: bool,
+    /// record every durable mutation (H3) and return the trace
+    #[serde(default)]
+    pub trace: bool,
+    /// directory image to materialise (relative paths) before the instance is opened
+    #[serde(default)]
+    pub pre_image: Vec<Ev>,
+    /// fault plan: (site, n) = the n-th occurrence (0-based) of `site` fails;
+    /// site "cqe:<batch>:<idx>" with value = the completion result to report
+    #[serde(default)]
+    pub faults: Vec<(String, i64)>,
+}
+
+/// One recorded durable mutation (paths relative to the job's root directory), or a
+/// harness marker around an API call.
+#[derive(Clone, Debug, Serialize, Deserialize, PartialEq, Eq, Hash)]
+pub enum Ev {
+    Mark { op: usize, end: bool },
+    Write { f: String, off: u64, data: String, osync: bool },
+    Flush { f: String },
+    BatchWrite { f: String, off: u64, data: String, idx: usize },
+    BatchSubmit { n: usize },
+    BatchDone,
+    Mkdir { p: String },
+    Create { f: String },
+    SetLen { f: String, len: u64 },
+    FsyncFile { f: String },
+    DirSync { p: String },
+    WriteFile { f: String, data: String },
+    Rename { from: String, to: String },
+    Unlink { f: String },
+}
+
+pub fn hex(b: &[u8]) -> String {
+    const H: &[u8; 16] = b"0123456789abcdef";
+    let mut s = String::with_capacity(b.len() * 2);
+    for x in b {
+        s.push(H[(x >> 4) as usize] as char);
+        s.push(H[(x & 15) as usize] as char);
+    }
+    s
+}
+pub fn unhex(s: &str) -> Vec<u8> {
+    let b = s.as_bytes();
+    let v = |c: u8| -> u8 {
+        match c {
+            b'0'..=b'9' => c - b'0',
+            b'a'..=b'f' => c - b'a' + 10,
+            _ => 0,
+        }
+    };
+    (0..b.len() / 2).map(|i| (v(b[2 * i]) << 4) | v(b[2 * i + 1])).collect()
 }
 
 #[derive(Clone, Debug, Serialize, Deserialize, Default)]
@@ -185,6 +236,8 @@ pub struct JobResult {
     pub status: String,
     /// index of the op during which the child died (when status != ok)
     pub died_at: Option<usize>,
+    #[serde(default)]
+    pub trace: Vec<Ev>,
 }
 
 pub fn fnv64(data: &[u8]) -> u64 {
